@@ -35,13 +35,47 @@ def descriptor_of(ext: str):
         return None
 
 
-def attrs_read(e: ast.expr, src: str):
-    """Attribute names read directly from the name `src` inside e."""
+def attrs_read(e: ast.expr, src: str, with_container: bool = False):
+    """Attribute names read from the name `src` inside e: the attribute read directly, or - when that is the attribute
+    container (`src.attributes.dropped`, `src.attributes.items()`) - what is read from the container."""
     out = []
+    parent = {}
+    for n in ast.walk(e):
+        for ch in ast.iter_child_nodes(n):
+            parent[id(ch)] = n
     for n in ast.walk(e):
         if isinstance(n, ast.Attribute) and isinstance(n.value, ast.Name) and n.value.id == src:
-            out.append(n.attr)
+            up = parent.get(id(n))
+            if n.attr == "attributes" and isinstance(up, ast.Attribute) and up.value is n:
+                out.append(up.attr)
+                if with_container:
+                    out.append(n.attr)
+            else:
+                out.append(n.attr)
     return out
+
+
+def _inline_locals(t, fi, e, depth=0):
+    """e with every local that is assigned exactly once (a plain `name = <expr>`) replaced by that expression: a comprehension
+    or an alias given a name first reads like the expression written in place"""
+    if depth > 4:
+        return e
+    import copy
+
+    class T(ast.NodeTransformer):
+        def visit_Name(self, n):
+            if not isinstance(n.ctx, ast.Load):
+                return n
+            bs = t.local_bindings(fi, n.id)
+            if len(bs) == 1 and bs[0][0] == "assign" and isinstance(bs[0][1], tuple) and bs[0][1][2] is None and bs[0][1][1] is not None:
+                return _inline_locals(t, fi, copy.deepcopy(bs[0][1][1]), depth + 1)
+            return n
+    if not any(isinstance(n, ast.Name) and t.local_bindings(fi, n.id) and t.local_bindings(fi, n.id)[0][0] == "assign" for n in ast.walk(e)):
+        return e
+    new = T().visit(copy.deepcopy(e))
+    ast.copy_location(new, e)
+    ast.fix_missing_locations(new)
+    return new
 
 
 def run(ctx: Ctx, tier: str) -> Result:
@@ -83,6 +117,12 @@ def run(ctx: Ctx, tier: str) -> Result:
             mname = d.name
             fields = [f.name for f in d.fields]
             kws = {k.arg: k.value for k in call.keywords if k.arg}
+            for k in call.keywords:
+                # Message(**fields) with `fields = {'name': value, ...}` written out just before
+                if k.arg is None:
+                    dv = _inline_locals(t, fi, k.value)
+                    if isinstance(dv, ast.Dict) and all(isinstance(kk, ast.Constant) and isinstance(kk.value, str) for kk in dv.keys):
+                        kws.update({kk.value: vv for kk, vv in zip(dv.keys, dv.values)})
             for k in kws:
                 if k not in fields:
                     res.fail(Finding("C08.SCHEMA", fi.qname, call, fi.loc(call), "%s has no field `%s`" % (mname, k)))
@@ -102,8 +142,9 @@ def run(ctx: Ctx, tier: str) -> Result:
             if src is None or mname in ("KeyValue", "KeyValueList", "ArrayValue", "PollRequest"):
                 continue
             for k, v in kws.items():
+                v = _inline_locals(t, fi, v)
                 reads = attrs_read(v, src)
-                consumed.setdefault(fi.qname, set()).update(reads)
+                consumed.setdefault(fi.qname, set()).update(attrs_read(v, src, with_container=True))
                 want = FIELD_SOURCE.get(k, (k,))
                 if reads and all(r in want or (k in ("attributes", "resource") and r in ("attributes", "resource")) for r in reads):
                     # containers: element-wise, no filter
@@ -202,7 +243,8 @@ def run(ctx: Ctx, tier: str) -> Result:
         tst = n.test
         if isinstance(tst, ast.Call) and norm(tst.func) == "isinstance" and len(tst.args) == 2:
             tys = [norm(x) for x in (tst.args[1].elts if isinstance(tst.args[1], ast.Tuple) else [tst.args[1]])]
-            ret = [r for r in ast.walk(n) if isinstance(r, ast.Return)]
+            # the arm is the body of this test (an if/elif chain keeps the later arms in `orelse`)
+            ret = [r for st_ in n.body for r in ast.walk(st_) if isinstance(r, ast.Return)]
             kws_ = [r.value.keywords[0].arg for r in ret if isinstance(r.value, ast.Call) and r.value.keywords]
             # the arm's own field; an integer that does not fit the wire type may leave as its digits (string_value=str(value))
             kw = None
